@@ -46,7 +46,7 @@ func runC14(c *Ctx, idx int, o *Obs) {
 	n := gen.Size(r, 2, maxTips)
 	lens := gen.Pick(r, "all", "all", "mixed", "none")
 	R := gen.Tree(r, gen.Opts{N: n, Shape: gen.Pick(r, "random", "random", "random", "caterpillar", "balanced", "star", "broom"),
-		RootDeg: gen.Pick(r, 0, 2, 3, 3, 5), MultiP: gen.Pick(r, 0.0, 0.3, 0.6), Lens: lens, LenCls: gen.Pick(r, "len", "tie", "dec"),
+		RootDeg: gen.Pick(r, 0, 2, 3, 3, 5), MultiP: gen.Pick(r, 0.0, 0.3, 0.6), Lens: lens, LenCls: gen.Pick(r, "len", "tie", "dec", "neg"),
 		SupP: gen.Pick(r, 0.0, 0.5, 1.0), SupCls: gen.Pick(r, "unit", "int"), Names: gen.Pick(r, "simple", "simple", "hostile")})
 	text := R.Newick()
 	o.Sample = Trunc(text, 400)
